@@ -61,7 +61,7 @@ class Layout:
             tape = None
         self.tape = tape
         self.noise = noise if tape is not None else 0.0
-        self.block_comment_left = 1 if (block_comment and tape is not None) else 0
+        self.block_comment_left = 3 if (block_comment and tape is not None) else 0
 
     def chance(self, p):
         if self.tape is None or self.noise <= 0:
@@ -184,6 +184,9 @@ def render(prog, lay=None):
         hdr.append("from %s usepulses *" % prog["pulses"])
     for name, v in prog["lets"]:
         hdr.append("let" + lay.ws() + name + lay.gap() + fmt_num(v))
+    for xr in prog.get("extra_regs") or []:
+        # (only ever present in deliberately illegal C16 texts: Jaqal has one register)
+        hdr.append("register %s[%s]" % (xr[0], render_idx(xr[1])))
     if prog.get("reg"):
         hdr.append("register %s[%s]" % (prog["reg"][0], render_idx(prog["reg"][1])))
     for m in prog["maps"]:
@@ -555,6 +558,8 @@ def resolve(prog, overrides=None, executable=True, anon=False):
                 elif a[0] == "id" and a[1] not in ps and a[1] in regs:
                     R.features.add("register_macro_arg")
 
+    if param_hides_register(prog):
+        R.features.add("param_hides_register")
     R.tree = ("seq", [do_stmt(s, {}, ()) for s in prog["body"]])
     check_structure(prog)
     if executable:
@@ -622,6 +627,23 @@ def used_qubits(node, n):
     if k == "loop":
         return used_qubits(node[2], n)
     raise ValueError(k)
+
+
+def param_hides_register(prog):
+    """A macro one of whose parameters is named like the register, and whose body names a
+    map alias: alias fill-in would have to write `reg[i]` where `reg` means the parameter
+    (F45: fill_in_map refuses)."""
+    if not prog.get("reg"):
+        return False
+    rname = prog["reg"][0]
+    aliases = {m["name"] for m in prog["maps"]}
+    for m in prog["macros"]:
+        if rname not in m["params"]:
+            continue
+        for st in all_statements({"macros": [], "body": [m["body"]], "lets": [], "maps": [], "reg": prog["reg"]}):
+            if st["k"] == "gate" and any(a[0] in ("id", "item") and a[1] in aliases and a[1] not in m["params"] for a in st["args"]):
+                return True
+    return False
 
 
 def check_executable(R):
